@@ -327,9 +327,10 @@ TsvNorm(t, key) ==
   [t EXCEPT !.tid = "", !.type = "", !.smd = NoMd,
             !.omd = IF key = "" THEN NoMd
                     ELSE [has |-> TRUE, rows |-> [k \in 1..Len(t.obs) |->
-                            SetToSeq({e \in RowAt(t, "observation", k) : e[1] = key})]]]
+                            LET es == {e \in RowAt(t, "observation", k) : e[1] = key /\ e[2] = "l" /\ Len(e[3]) > 0} IN
+                            IF es = {} THEN <<<<key, "l", <<"None">>>>>> ELSE SetToSeq(es)]]]
 TsvExportable(t, key) ==
-  key = "" \/ (t.omd.has /\ \A k \in 1..Len(t.omd.rows) :
+  key = "" \/ (t.omd.has /\ \E k \in 1..Len(t.omd.rows) :
                  \E e \in SeqSet(t.omd.rows[k]) : e[1] = key /\ e[2] = "l" /\ Len(e[3]) > 0)
 SubsetWant(whole, a) ==
   LET f1 == FilterIds(whole, SeqSet(a.ids), a.axis, FALSE)
@@ -654,6 +655,7 @@ StepsFor(call, h, recv, res, full) ==
            LET ids == Ids(t, ax)
                subs == IF full THEN ((SubSeqsOf(ids) \cup {Reverse(x) : x \in SubSeqsOf(ids)}) \ {<<>>})
                                       \cup {FirstOf(ids) \o <<"zz">>}
+                                      \cup (IF ids = <<>> THEN {} ELSE {<<ids[Len(ids)] \o "~x">>, RestOf(ids) \o <<ids[1] \o "~0">>})
                        ELSE ({FirstOf(ids), Reverse(RestOf(ids))} \ {<<>>})
            IN {St(call, recv, res, [variant |-> v, fmt |-> IF v \in {"parse_table_json", "parse_table_json_lines", "cli_subset_json"}
                                                             THEN "json" ELSE "hdf5",
